@@ -445,12 +445,15 @@ func c17FreeReset(c *Ctx) int {
 						ro := s
 						ro.SetReadOnly(true)
 						var err error
+						roBefore := dumpKey(ro)
 						if p := noPanic(func() { err = ro.Free() }); p != "" {
 							c.Violation("panic:Free", fmt.Sprintf("Free on a read-only %s (variant %d) panicked: %s", kind, variant, p), nil, ln)
 							continue
 						}
 						if err == nil || !ro.IsInit() {
 							c.Violation("Free:read-only", fmt.Sprintf("Free on a read-only %s returned %v, IsInit=%v", kind, err, ro.IsInit()), nil, ln)
+						} else if roAfter := dumpKey(ro); roAfter != roBefore {
+							c.Violation("Free:read-only-instance-changed", fmt.Sprintf("the refused Free on a read-only %s (variant %d) left its mark on the instance:\n before %s\n after  %s", kind, variant, roBefore, roAfter), nil, ln)
 						}
 						ro.SetReadOnly(false)
 						if p := noPanic(func() { err = ro.Free() }); p != "" {
@@ -550,10 +553,16 @@ func c17FreeReset(c *Ctx) int {
 		}
 	}
 	cd := stackage.Cond("k", stackage.Eq, "v").SetReadOnly(true)
+	cdBefore := dumpKey(cd)
 	if err := cd.Free(); err == nil || !cd.IsInit() {
 		c.Violation("Free:read-only", fmt.Sprintf("Free on a read-only Condition returned %v, IsInit=%v", err, cd.IsInit()), nil, 0)
+	} else if cdAfter := dumpKey(cd); cdAfter != cdBefore {
+		c.Violation("Free:read-only-instance-changed", fmt.Sprintf("the refused Free on a read-only Condition left its mark on the instance:\n before %s\n after  %s", cdBefore, cdAfter), nil, 0)
 	}
 	cd.SetReadOnly(false)
+	if cd.SetExpression("w"); cd.Expression() != "w" {
+		c.Violation("Free:read-only-instance-changed", fmt.Sprintf("after SetReadOnly(true), a refused Free and SetReadOnly(false) the Condition no longer takes an expression (Err %v)", cd.Err()), nil, 0)
+	}
 	if err := cd.Free(); err != nil || !cd.IsZero() {
 		c.Violation("Free:not-zero", fmt.Sprintf("Free on a Condition returned %v, IsZero=%v", err, cd.IsZero()), nil, 0)
 	}
